@@ -30,7 +30,7 @@ RULE = ('prepared requests and responses over body sources {bytes, bytearray, te
 
 METHODS = ['GET', 'HEAD', 'POST', 'PUT', 'DELETE', 'OPTIONS', 'TRACE', 'PATCH', 'SEARCH', 'get', 'Head', 'search', 'Post']
 STATUSES = [100, 101, 102, 103, 150, 199, 200, 200, 200, 201, 202, 204, 205, 301, 304, 400, 404, 405, 413, 500, 503]
-SOURCES = ['bytes', 'bytearray', 'text', 'list', 'tuple', 'gen', 'textlist', 'textgen', 'bytesio', 'file', 'bytesio-end', 'file-end', 'none']
+SOURCES = ['bytes', 'bytearray', 'text', 'list', 'tuple', 'gen', 'iter', 'textlist', 'textgen', 'bytesio', 'file', 'bytesio-end', 'file-end', 'none']
 LENGTHS = [0, 1, 5, 300, 4095, 4096, 4097, 10000]
 OPS = [('prepare', 'compose'), ('prepare', 'compose', 'compose'), ('prepare', 'prepare', 'compose'), ('prepare', 'compose', 'prepare', 'compose'), ('prepare', 'compose', 'compose', 'prepare', 'compose')]
 
@@ -49,7 +49,7 @@ def gen_spec(rng):
 		data = bytes(rng.randrange(256) for _ in range(n)) if rng.random() < 0.5 else b'x' * n
 	if source in ('textlist', 'textgen'):
 		pass
-	elif source in ('list', 'tuple', 'gen') and data:
+	elif source in ('list', 'tuple', 'gen', 'iter') and data:
 		cuts = sorted({rng.randrange(len(data) + 1) for _ in range(rng.choice((0, 1, 3)))})
 		pieces, prev = [], 0
 		for c in cuts + [len(data)]:
